@@ -66,7 +66,8 @@ def ops_of(node, env):
             else:
                 out.append(Op('write', s, (expr.nfs(c.args[0], env) if c.args else None,), c))
         elif isinstance(f, ast.Name) and f.id in PARSE_FUNCS:
-            st = expr.nfs(c.args[0], env) if c.args else None
+            sn = expr.arg_of(c, 0, 'struct')
+            st = expr.nfs(sn, env) if sn is not None else None
             sv = expr.arg_of(c, 1, 'stream')
             s = expr.nfs(sv, env) if sv is not None else None
             p = expr.arg_of(c, 2, 'stream_pos')
